@@ -69,7 +69,7 @@ def gen_case(rng, idx):
             cmds = [[nid + i, rng.choice([0, 0, 0, 1, 2, T, 3 * T])] for i in range(n)]
             nid += n
             ncmds += n
-            ops.append({"op": "burst", "window": rng.randint(1, 8), "cmds": cmds})
+            ops.append({"op": "burst", "window": rng.randint(1, 8), "cmds": cmds, "shared_payload": rng.random() < 0.5})
     if rng.random() < 0.45:                       # user code that takes time: the iterable, the callbacks
         for op in ops:
             if op["op"] == "idle":
@@ -202,6 +202,23 @@ def slow_user_code_cases():
                             "ops": [{"op": "burst", "window": 2, "cmds": [[0, 5 * T if tries > 1 else 0], [1, 0]],
                                      "iter": {}, "cb": {"0": cbd}}]})
                 idx += 1
+    return out
+
+
+def shared_payload_cases():
+    """A lazy producer that reuses ONE mutable buffer for the data of every command; first transmissions lost, so
+    that commands are retransmitted after the buffer has been refilled: every transmission must still be the
+    command as submitted."""
+    out, idx, T = [], 4000000, 10
+    for window in (2, 3, 5):
+        for lost in ([0], [1], [0, 2], [1, 2, 3]):
+            out.append({"n_tries": 3, "timeout": T, "advance_seq": 65534, "mood": "shared-payload", "idx": idx,
+                        "buffer_size": 256, "positional": False,
+                        "policy": {"kind": "sim", "plan": dict((str(k), {"lost": True, "replies": []}) for k in lost),
+                                   "exact": [], "max_selects": 300},
+                        "ops": [{"op": "burst", "window": window, "shared_payload": True,
+                                 "cmds": [[i, 0] for i in (3, 4, 5, 18, 9, 10, 31, 2)]}]})
+            idx += 1
     return out
 
 
@@ -558,8 +575,8 @@ def run(chk, args):
         cases = [f["replay"]["case"] for f in j.get("failures", []) + j.get("no_longer_checks", [])
                  if "case" in f.get("replay", {})]
     else:
-        n = 1500 if chk.tier == "quick" else 40000
-        cases = special_cases(chk.tier) + history_cases() + slow_user_code_cases() + enumerated_cases(chk.tier) + [gen_case(chk.rng, i) for i in range(n)]
+        n = 1300 if chk.tier == "quick" else 40000
+        cases = special_cases(chk.tier) + history_cases() + slow_user_code_cases() + shared_payload_cases() + enumerated_cases(chk.tier) + [gen_case(chk.rng, i) for i in range(n)]
     corpus = os.path.join(lib.VERIF, "corpus", "C06.json")
     if os.path.exists(corpus):
         cases = json.load(open(corpus)) + cases
@@ -640,7 +657,7 @@ def run(chk, args):
     chk.coverage["phases_s"] = dict(implementation=round(t_impl, 1), oracle_and_literals=round(t_oracle, 1),
                                     model_in_coq=round(time.time() - t0, 1))
     chk.coverage["rule"] = (
-        "random connections: 1-3 calls (send_scp_burst with 0-12 commands, window 1-8; send_scp), tries 1-5, timeout "
+        "random connections (1300 quick / 40000 thorough): 1-3 calls (send_scp_burst with 0-12 commands, window 1-8; send_scp), tries 1-5, timeout "
         "4/10/25 ticks, per-command extra timeouts, sequence counter pre-advanced (often to the wrap), idle gaps; "
         "80% fault simulations (per-transmission outcome ok / request lost / reply lost / delayed 1-3 timeouts / "
         "duplicated / retryable rc / fatal rc, select waking exactly at or one tick after the deadline, late replies "
@@ -648,7 +665,8 @@ def run(chk, args):
         "including backwards), in 45% of them slow user code (the iterable takes 1..3T ticks to yield a command, a "
         "callback runs 1..3T ticks, replies arriving meanwhile), the buffer size an argument of each call (same / independent / growing / shrinking along "
         "the connection, two replies in five a full buffer), half the connections constructed positionally; 16 directed "
-        "histories of 2-4 calls with changing buffer sizes and full-size replies, some across a call that raised; 39 directed slow-iterable / slow-callback cases; plus three 65 537-command schedules that take the sequence counter round (two or three commands with adjacent "
+        "histories of 2-4 calls with changing buffer sizes and full-size replies, some across a call that raised; 39 directed slow-iterable / slow-callback cases; in half the bursts the data of every command is ONE reused "
+        "mutable buffer refilled by a lazy producer (12 directed cases with lost first transmissions); plus three 65 537-command schedules that take the sequence counter round (two or three commands with adjacent "
         "sequence numbers stuck across the wrap; one with copies "
         "of a reply arriving after 2^k commands, k = 4..16) and an exhaustive enumeration (1-2 commands, window 1-2, "
         "tries <= 3, six outcomes per possible transmission; the quick tier takes its part with <= 2 transmissions). "
